@@ -108,6 +108,23 @@ def mentions(t, name):
     return (t["k"] == "name" and t["s"] == name) or any(mentions(c, name) for c in t["a"])
 
 
+def _fetch_family(arg):
+    prop, entry, workers = arg
+    (name, fam, budget, keep) = entry[:4]
+    if len(entry) > 4:
+        got, st = common.gen_programs(prop, name, fam, budget, simulate=f"num={max(1, entry[4] // 16)}",
+                                      extra_args=["-depth", "80", "-seed", str(common.seed() + 3)])
+    else:
+        got, st = common.gen_programs(prop, name, fam, budget, workers=workers)
+    total = len(got)
+    got = [p for p in got if chain_steps_m(p) and not any(mentions(l, "ds") for _, l in chain_steps_m(p))]
+    if fam == "e2eb":      # the family exists for its called lambdas
+        got = [p for p in got if "(lambda a:" in codec.src(p)]
+    if keep is not None:
+        got = common.subsample_stratified(got, keep, salt=name)
+    return got, total, {k: v for k, v in st.items() if k not in ("stdout", "output")}
+
+
 def run(prop, tier):
     logging.disable(logging.WARNING)
     from func_adl import EventDataset
@@ -118,20 +135,16 @@ def run(prop, tier):
     progs = []
     loops = []        # chain i is rendered with loops over constants (callable supply)
     fams = {}
-    for entry in PLANS[tier]:
+    if tier == "quick":
+        # the families are generated (TLC), loaded and sub-sampled side by side, each by a forked worker
+        import multiprocessing
+        with multiprocessing.get_context("fork").Pool(min(6, len(PLANS[tier]))) as pool:
+            fetched = pool.map(_fetch_family, [(prop, e, 5) for e in PLANS[tier]])
+    else:
+        fetched = (_fetch_family((prop, e, 16)) for e in PLANS[tier])
+    for entry, (got, total, st) in zip(PLANS[tier], fetched):
         (name, fam, budget, keep) = entry[:4]
-        if len(entry) > 4:
-            got, st = common.gen_programs(prop, name, fam, budget, simulate=f"num={max(1, entry[4] // 16)}",
-                                          extra_args=["-depth", "80", "-seed", str(common.seed() + 3)])
-        else:
-            got, st = common.gen_programs(prop, name, fam, budget)
         rep.add_tlc(st)
-        total = len(got)
-        got = [p for p in got if chain_steps_m(p) and not any(mentions(l, "ds") for _, l in chain_steps_m(p))]
-        if fam == "e2eb":      # the family exists for its called lambdas
-            got = [p for p in got if "(lambda a:" in codec.src(p)]
-        if keep is not None:
-            got = common.subsample_stratified(got, keep, salt=name)
         fams[name] = {"generated": total, "fluent_chains_replayed": len(got), "budget": budget}
         progs += got
         loops += [fam == "e2el"] * len(got)
